@@ -1,7 +1,8 @@
 #!/bin/bash
 # Targeted neutral regression: for each behaviour-preserving patch, run the checks whose rules read the files it touches
-# (used when the full 19-check corpus run does not fit the time budget). Output lines as one_neutral.sh.
+# (used when the full 19-check corpus run does not fit the time budget). Output lines as one_neutral.sh, with the checks run.
 j=${1:-4}
+n=0
 for f in /verif/neutral/*/patch-*.diff; do
   props=""
   grep -q "^+++ b/analysis/taint/dataflow_visitor.go" $f && props="$props C01 C02 C05 C13"
@@ -15,5 +16,9 @@ for f in /verif/neutral/*/patch-*.diff; do
   grep -q "^+++ b/analysis/dataflow/trace.go" $f && props="$props C07"
   grep -q "^+++ b/analysis/dataflow/function_summary_graph.go" $f && props="$props C09 C10"
   props=$(echo $props | tr ' ' '\n' | sort -u | tr '\n' ' ')
-  [ -n "$props" ] && echo "PROPS=\"$props\" /verif/tools/one_neutral.sh $f | sed 's/\$/ [$props]/'"
-done | xargs -P $j -I{} bash -c "{}"
+  [ -z "$props" ] && continue
+  ( out=$(PROPS="$props" /verif/tools/one_neutral.sh $f); echo "$out [$props]" ) &
+  n=$((n+1))
+  if [ $n -ge $j ]; then wait -n; n=$((n-1)); fi
+done
+wait
